@@ -136,13 +136,15 @@ PROPS = {
     "C06": {
         "level": "model_checking",
         "claim": "On frame ++ 2 symbolic tail bytes, per shape: the blocking decoder equals the async decoder with eof mapped to incomplete (same packet / same error); whenever the "
-                 "strict decoder accepts, both return that packet; whenever it rejects with anything but a remaining-length mismatch, both return that error.",
+                 "strict decoder accepts, both return that packet; whenever it rejects with anything but a remaining-length mismatch, both return that error. "
+                 "The fixed-header reader of the real poll.rs rejects an over-long remaining length, a zero length on a packet with a body and a refused control byte exactly as the "
+                 "variable-byte-integer reference (= the blocking/async header reader decided in C15) does (C05 steps, shared label).",
         "note": "all three on the sync twin (async = decode_async on a never-pending slice reader); strict = C05 composition; dispatch tables are compared through the per-type shapes",
         "functions": ["Packet::decode (v3, v5)", "Packet::decode_async", "Header::decode_async", "decode_raw_header", "strict composition"],
         "bounds": {"quick": "about 45 shapes incl. malformed ones", "thorough": "all v3 shapes and v5 shapes up to 16 bytes"},
         "outside": "decode_async on readers that return Pending / short reads (await propagation + tokio ReadExact, not code of this crate)",
-        "tiers": {"quick": {"modules": ["g_c06"], "generators": ["c06_quick"], "timeout_s": 900, "mem_gb": 10, "jobs": 14},
-                  "thorough": {"modules": ["g_c06"], "generators": ["c06_thorough"], "timeout_s": 1800, "mem_gb": 12, "jobs": 10}},
+        "tiers": {"quick": {"modules": ["g_c06", "p_c05"], "generators": ["c06_quick"], "select": r"__agree$|^c05_steps_(overlong_varint|zero_rem|reject_hl2)$", "timeout_s": 600, "mem_gb": 10, "jobs": 14},
+                  "thorough": {"modules": ["g_c06", "p_c05"], "generators": ["c06_thorough"], "select": r"__agree$|^c05_steps_(overlong_varint|zero_rem|reject_hl2)$", "timeout_s": 1800, "mem_gb": 12, "jobs": 10}},
     },
     "C07": {
         "level": "model_checking",
@@ -164,7 +166,7 @@ PROPS = {
         "functions": ["Protocol::new", "Protocol::decode_async", "v3::Connect::{decode_async, decode_with_protocol}", "v5::Connect::{decode_async, decode_with_protocol}"],
         "bounds": {"all": "names up to 7 bytes (2-byte names omitted: no valid name has that length and the code path is the same as for 1 and 3); one CONNECT shape per version (client id 1 byte, no will/credentials)"},
         "outside": "longer names; CONNECT shapes with will/credentials in the cross-family scenario (their decoding is C04)",
-        "tiers": {"quick": {"modules": ["p_c13"], "timeout_s": 600, "mem_gb": 8}, "thorough": {"modules": ["p_c13"], "timeout_s": 1200, "mem_gb": 12}},
+        "tiers": {"quick": {"modules": ["p_c13"], "timeout_s": 600, "mem_gb": 16}, "thorough": {"modules": ["p_c13"], "timeout_s": 1200, "mem_gb": 20}},
     },
     "C17": {
         "level": "model_checking",
@@ -219,9 +221,10 @@ PROPS = {
         "note": "From<io::Error> for Error is stubbed to keep the kind and drop the message (core::fmt is out of reach); the async decoder under read faults runs on the sync twin with a reader "
                 "that fails at `limit` (natively: tokio AsyncRead delivering one byte per poll)",
         "functions": ["Encodable::encode (4 bodies)", "Packet::encode_async", "GenericPollPacket::poll error paths", "From<Error> for io::Error", "Error::is_eof", "ErrorV5::is_eof"],
-        "bounds": {"all": "every fault position of encodings up to 19 bytes; 6 error kinds for conversions"},
+        "bounds": {"quick": "every fault position of a v3 PUBLISH (7 bytes) and a v5 PUBACK with properties (8 bytes) body; read faults at every position of 10 encodings; 6 error kinds for conversions",
+                   "thorough": "additionally every fault position of a v3 CONNECT (19 bytes) and a v5 PUBLISH with properties (9 bytes) body"},
         "outside": "the three manual map_err(|e| IoError(e.kind(), e.to_string())) sites of the v5 async decoder (to_string is core::fmt); Error::from(io::Error) itself",
-        "tiers": {"quick": {"modules": ["p_c14", "p_c09", "p_c05", "g_c14"], "generators": ["c14_quick"], "select": r"^c14_|__rdfault$|c09_v3_publish_(fault|zero)|c05_steps_(all_rem2|all_rem2_hl3|empty_hl3)$", "timeout_s": 900, "mem_gb": 12},
+        "tiers": {"quick": {"modules": ["p_c14", "p_c09", "p_c05", "g_c14"], "generators": ["c14_quick"], "select": r"^c14_(to_io_error|stream_v3_publish|stream_v5_puback)|__rdfault$|c09_v3_publish_(fault|zero)|c05_steps_(all_rem2|all_rem2_hl3|empty_hl3)$", "timeout_s": 900, "mem_gb": 12},
                   "thorough": {"modules": ["p_c14", "p_c09", "p_c05", "g_c14"], "generators": ["c14_thorough"], "select": r"^c14_|__rdfault$|c09_v3_publish_(fault|zero)|c05_steps_", "timeout_s": 1800, "mem_gb": 16}},
     },
     "C11": {
